@@ -272,9 +272,49 @@ def distinctOcc (lv : List (Name × Nat)) (r : BRxn) : Bool :=
 
 def DistinctOccurrences (lv : List (Name × Nat)) (r : BRxn) : Prop := distinctOcc lv r = true
 
+instance (lv : List (Name × Nat)) (r : BRxn) : Decidable (DistinctOccurrences lv r) := by
+  unfold DistinctOccurrences; infer_instance
+
 /-- the base-model environment induced by an isotopomer state: a labelled compound reads the
     sum of its isotopomers, any other name reads itself -/
 def totalsEnv (lv : List (Name × Nat)) (σ : LName → Rat) (a : Name) : Rat :=
   if labelsOf lv a > 0 then totalOf σ a (labelsOf lv a) else σ (plain a)
+
+/-! ### numeric reading of a whole labelled model (driver side of the tie) -/
+
+/-- value of a name at a state of the labelled model: state variables, parameters, totals
+    (`_total_concentration` = sum) and derived quantities, resolved recursively (the real model
+    sorts them topologically; `fuel` bounds the depth).  An unknown name reads 0 here; the real
+    model raises, which the tie reports as a mismatch. -/
+def LModel.valF (m : LModel) (st : List (LName × Rat)) : Nat → LName → Rat
+  | 0, _ => 0
+  | f + 1, n =>
+    match st.lookup n with
+    | some v => v
+    | none =>
+      match n.lab with
+      | some _ => 0
+      | none =>
+        match m.pars.lookup n.base with
+        | some v => v
+        | none =>
+          match m.totals.lookup n with
+          | some isos => (isos.map (LModel.valF m st f)).sum
+          | none =>
+            match m.derived.lookup n.base with
+            | some d => d.fn (d.args.map (LModel.valF m st f))
+            | none => 0
+
+def LModel.env (m : LModel) (st : List (LName × Rat)) : LName → Rat :=
+  m.valF st (m.derived.length + 3)
+
+/-- `get_right_hand_side(state)` of the labelled model -/
+def LModel.rhs (m : LModel) (st : List (LName × Rat)) : List (LName × Rat) :=
+  m.vars.map fun kv => (kv.1, rhsOf m.rxns (m.env st) kv.1)
+
+/-- per base variable, the derivative summed over its isotopomers -/
+def LModel.summedRhs (m : LModel) (lv : List (Name × Nat)) (baseVars : List Name)
+    (st : List (LName × Rat)) : List (Name × Rat) :=
+  baseVars.map fun x => (x, ((binaryLabels x (labelsOf lv x)).map (rhsOf m.rxns (m.env st))).sum)
 
 end Mxl.C05
